@@ -46,6 +46,24 @@ def signature(recs, k, mon):
         if actor and c.get("loaded") and actor in c["per"] and c["per"][actor]["in"]:
             row = pre["st"]["subs"][t][actor]
             out["permsDiffer"] = (c["per"][actor]["want"] != row["want"]) or (c["per"][actor]["given"] != row["given"]) or row["st"] != "live"
+        # ... and was that difference made by the user's own {set sub} sent from a DETACHED session while the topic was loaded
+        # (replyOfflineTopicSetSub writes the row only), with no unload / reload of the topic since?  (history shape of the open
+        # finding C08-offline-setsub-bypasses-live-topic; any other cause of a stale live copy is NOT that finding)
+        off = False
+        j = k - 1                       # recs[j-1] is record j (1-based); walk this behaviour's earlier steps, oldest first
+        first = k - rec["i"]            # index (1-based) of the behaviour's initial record
+        for x in range(first + 1, k):
+            r, rp = recs[x - 1], recs[x - 2]
+            ra = r["act"]
+            if ra.get("t") != t:
+                continue
+            if ra.get("a") in ("Reload", "Unload", "Restart"):
+                off = False
+            elif ra.get("a") == "SetSelf" and (ra.get("obo") or SESS_USER.get(ra.get("s"))) == actor:
+                cp = rp["st"]["cache"].get(t, {})
+                if cp.get("loaded") and t not in rp["st"]["sess"].get(ra.get("s"), {}).get("subs", []):
+                    off = True
+        out["offlineSetSubBefore"] = off
     except Exception:
         pass
     out["fault"] = bool(rec.get("faultFired"))
